@@ -1190,6 +1190,10 @@ func (t *Tree) Compile(file string, args []string, out io.Writer) (err error) {
 			elements[0].SetParentDetect(n.ParentDetect())
 			elements[0].SetParentMultipleKey(n.ParentMultipleKey())
 			for _, element := range elements {
+				if element.GetType() == TypeNil {
+					/* emits nothing: whether a label comes last is decided by what precedes it */
+					continue
+				}
 				labelLast = compile(element, ko)
 			}
 		case TypePeekFor:
